@@ -2,7 +2,8 @@
 from .. import rotcheck
 
 LEVEL = "exploration"
-PROFILE = {"p_day": 0.06, "p_restart": 0.07, "p_foreign": 0.01, "big_p": 0.08, "marathon_p": 0.012}
+PROFILE = {"p_day": 0.06, "p_restart": 0.07, "p_foreign": 0.01, "big_p": 0.08, "burst": 0.05, "marathon_p": 0.03, "marathon_N": [-1, 0, 12, 12, 30], "marathon_n": [12, 25, 40, 101, 130],
+           "pingpong_p": 0.06}
 
 
 def run(ctx):
